@@ -61,7 +61,8 @@ def run(prog, res):
   res.floor('W3', 4)
   res.floor('W1', 45)
   res.floor('W5', 14)
-  res.floor('W6', 15)
+  _w6_pairs(prog, res)
+  res.floor('W6', 17)
   res.floor('O1', 3)
 
 
@@ -868,3 +869,55 @@ def _enumerate_index_of(fn, attr):
             dotted(inner.value) == dotted(elem):
           return dotted(idx)
   return None
+
+
+def _w6_pairs(prog, res):
+  """W6 (categorical pairs): every container of ordering pairs that the
+  verifier accepts and that the lattice / RTL predicates treat as "monotone"
+  must also reach the CategoricalCalibration layer.  The selector
+  `pairs if isinstance(pairs, <kinds>) else None` is evaluated on the list and
+  on the tuple spelling of the same pairs."""
+  fn = prog.function(PL + '.build_multi_unit_calibration_layers')
+  res.analysed(fn)
+  cc = prog.cls('categorical_calibration_layer.CategoricalCalibration')
+  calls = wiring.calls_to(prog, fn, cc)
+  if len(calls) != 1:
+    raise AnalysisError('build_multi_unit_calibration_layers: expected one '
+                        'CategoricalCalibration(...)')
+  kw = {k.arg: k.value for k in calls[0].keywords}
+  sel = kw.get('monotonicities')
+  if sel is None:
+    raise AnalysisError('CategoricalCalibration(...) without monotonicities=')
+
+  def passes(value):
+    """does the selector hand `value` to the layer?"""
+    if dotted(sel) == 'feature_config.monotonicity':
+      return True
+    e = sel
+    if isinstance(e, ast.Call) and dotted(e.func) in ('list', 'tuple') and \
+        e.args:
+      e = e.args[0]
+      if dotted(e) == 'feature_config.monotonicity':
+        return True
+    if isinstance(e, ast.IfExp):
+      t = e.test
+      if isinstance(t, ast.Call) and dotted(t.func) == 'isinstance' and \
+          dotted(t.args[0]) == 'feature_config.monotonicity':
+        kinds = t.args[1].elts if isinstance(t.args[1], ast.Tuple) else [
+            t.args[1]]
+        names = {dotted(k) for k in kinds}
+        hit = type(value).__name__ in names
+        chosen = e.body if hit else e.orelse
+        return not is_none(chosen)
+    raise AnalysisError('%s: selector `%s` of the ordering pairs is not '
+                        'understood' % (fn.loc(sel), norm_text(sel)[:60]))
+  for label, value in (('list', [(0, 1), (1, 2)]),
+                       ('tuple', ((0, 1), (1, 2)))):
+    res.check(passes(value), 'W6', 'categorical-pairs|%s' % label,
+              fn.loc(sel),
+              'ordering pairs given as a %s reach the calibrator' % label,
+              'ordering pairs given as a %s are accepted by verify_config and '
+              'make the feature "monotone" for the lattice / RTL wiring, but '
+              'the CategoricalCalibration layer gets monotonicities=None: the '
+              'category order is never constrained (and appears after a '
+              'config round trip, which turns the tuple into a list)' % label)
